@@ -3,7 +3,7 @@ pub mod model;
 use nom::branch::alt;
 use nom::bytes::complete::{tag, take_till};
 use nom::character::complete::{char, digit0, digit1, multispace0};
-use nom::combinator::{map, opt, recognize};
+use nom::combinator::{map, opt, recognize, verify};
 use nom::multi::{many0, separated_list0, separated_list1};
 use nom::sequence::{delimited, preceded, terminated, tuple};
 use nom::IResult;
@@ -426,8 +426,12 @@ fn number(input: &str) -> IResult<&str, &str> {
 ///
 /// [\[35\] FunctionName](https://triple-underscore.github.io/XML/xpath10-ja.html#NT-FunctionName)
 fn function_name(input: &str) -> IResult<&str, QName> {
-    // TODO:
-    qname(input)
+    verify(qname, |v: &QName| {
+        !matches!(
+            v,
+            QName::Unprefixed("comment" | "text" | "processing-instruction" | "node")
+        )
+    })(input)
 }
 
 /// '$' QName
